@@ -222,7 +222,10 @@ func runImpl(in io.Reader, out io.Writer) {
 // ---------------------------------------------------------------- pipeline runs with an event channel
 
 type pipeHead struct {
-	Entry int `json:"entry"`
+	Entry   int  `json:"entry"`
+	Cap     *int `json:"cap"`
+	StallAt *int `json:"stallAt"`
+	StallMs int  `json:"stallMs"`
 }
 
 func implPipe(h caseHead, raw []byte) map[string]any {
@@ -239,7 +242,14 @@ func implPipe(h caseHead, raw []byte) map[string]any {
 		}
 		compiled = c
 	}
-	obs := runWithChannel(func(ch *chan events.Event) (string, error) {
+	capacity, stallAt := -1, -1
+	if ph.Cap != nil {
+		capacity = *ph.Cap
+	}
+	if ph.StallAt != nil {
+		stallAt = *ph.StallAt
+	}
+	obs := runWithConsumer(func(ch *chan events.Event) (string, error) {
 		switch ph.Entry {
 		case 0:
 			return pkg.Validate(h.Profile, h.Data, false, ch)
@@ -254,7 +264,7 @@ func implPipe(h caseHead, raw []byte) map[string]any {
 			return "", err
 		}
 		return "", fmt.Errorf("bad entry")
-	})
+	}, capacity, stallAt, ph.StallMs)
 	res["outcome"] = obs.Outcome
 	res["events"] = obs.Events
 	res["closes"] = obs.Closes
